@@ -589,6 +589,7 @@ int __real_pthread_attr_init(pthread_attr_t *);
 int __real_pthread_attr_destroy(pthread_attr_t *);
 bool psv_attr_affinity_unusable(const pthread_attr_t *a);
 char *__real_getenv(const char *);
+long __real_sysconf(int);
 clock_t __real_clock(void);
 
 #define ON_FIBER (S && S->cur >= 0)
@@ -816,13 +817,32 @@ bool psv_attr_affinity_unusable(const pthread_attr_t *a) {
 	if (it == g_attr_affinity.end()) return false;
 	return !cpuset_usable(it->second.size(), (const cpu_set_t *)it->second.data());
 }
+// The simulated environment: which of the two variables exist and what their text is.
+//   psv_env_form 0: both set to the worker count (default)   1: only GOTO_NUM_THREADS   2: only OMP_NUM_THREADS
+//                3: both set, OMP_NUM_THREADS to another value (GOTO_NUM_THREADS has precedence)
+//                4: neither set: the worker count is the number of online CPUs of the simulated machine
+//   psv_env_style 0: "4"   1: " 4"   2: "+4"   3: "04"      (all denote the same count to atoi/strtol)
+int psv_env_form = 0, psv_env_style = 0, psv_env_other = 1;
 char *__wrap_getenv(const char *name) {
-	if (psv_env_threads > 0 && name && (!strcmp(name, "GOTO_NUM_THREADS") || !strcmp(name, "OMP_NUM_THREADS"))) {
-		static char buf[16];
-		snprintf(buf, sizeof buf, "%d", psv_env_threads);
-		return buf;
+	if (psv_env_threads > 0 && name) {
+		bool is_goto = !strcmp(name, "GOTO_NUM_THREADS"), is_omp = !strcmp(name, "OMP_NUM_THREADS");
+		if (is_goto || is_omp) {
+			if (psv_env_form == 4) return nullptr;
+			if (psv_env_form == 1 && is_omp) return nullptr;
+			if (psv_env_form == 2 && is_goto) return nullptr;
+			static char buf[2][24];
+			int v = (psv_env_form == 3 && is_omp) ? psv_env_other : psv_env_threads;
+			static const char *fmt[] = {"%d", " %d", "+%d", "0%d"};
+			snprintf(buf[is_omp], sizeof buf[0], fmt[psv_env_style & 3], v);
+			return buf[is_omp];
+		}
 	}
 	return __real_getenv(name);
+}
+long __wrap_sysconf(int name) {
+	// the online CPU count of the simulated machine, never the real one
+	if (psv_env_threads > 0 && name == _SC_NPROCESSORS_ONLN) return psv_env_form == 4 ? psv_env_threads : (psv_ncpus > 0 ? psv_ncpus : 4);
+	return __real_sysconf(name);
 }
 clock_t __wrap_clock(void) {
 	if (!S) return __real_clock();
